@@ -9,6 +9,7 @@ From BV Require Import Proofs.PoolHist.
 From BV Require Import Proofs.PoolRefuted.
 From BV Require Gen.G_pool_shape.
 From BV Require Import Proofs.PoolSup.
+From BV Require Gen.G_pool_pins.
 Import ListNotations.
 Open Scope Z_scope.
 
@@ -176,3 +177,11 @@ Example C04_witness :
   map (fun x => (ready x, value x, worker_lost x)) (jobs (run c04_cfg c04_tr))
   = [(true, Some (PLost (-11) 0), Some (1000, -11)); (false, None, None)].
 Proof. vm_compute. reflexivity. Qed.
+
+(* the parent-side functions of billiard/pool.py these theorems are about are, on this run, the very
+   text the hand-written model was read against and is validated against by the correspondence
+   (digests of their ASTs, translate/kernels/poolpins.py): any edit of one of them breaks this
+   obligation and starts the deeper search for a failing history *)
+Theorem C04_modelled_code_is_the_validated_text : G_pool_pins.modelled_code_of_C04 = true.
+Proof. reflexivity. Qed.
+Print Assumptions C04_modelled_code_is_the_validated_text.
